@@ -106,11 +106,10 @@ def handle (line : String) : String :=
   | ["lib", c, sub, fname, es] =>
     match parseCfg c, unhexStr sub, unhexStr fname, parseEntries es with
     | some cfg, some sub, some fname, some ar =>
-      let cache : FS := [(["cache".toList], Node.dir)]
       match libResult cfg "/cache/lib".toList sub (fname, []) ar with
       | none => "nomodel"
-      | some (.ok fs) => "ok " ++ listing (fs ++ cache)
-      | some (.error _) => "err " ++ listing cache
+      | some (true, fs) => "ok " ++ listing fs
+      | some (false, fs) => "err " ++ listing fs
     | _, _, _, _ => "bad-op"
   | ["lock", k, n, sched] =>
     match k.toNat?, n.toNat? with
